@@ -65,7 +65,7 @@ func (i *Inst) NewProtoCtx(s Script, rng *rand.Rand) *ProtoCtx {
 // OpenOpts returns how the tunnel of this script is opened.
 func (pc *ProtoCtx) OpenOpts() OpenOpts {
 	s, i, user := pc.S, pc.I, pc.User
-	oo := OpenOpts{Transport: s.Transport, LocalIP: s.Tun.UseIP, XFF: s.Tun.UseXFF}
+	oo := OpenOpts{Transport: s.Transport, LocalIP: s.Tun.UseIP, XFF: s.Tun.UseXFF, OutElsewhere: s.Tun.OutElsewhere, OutLocalIP: s.Tun.OutIP, OutXFF: s.Tun.OutXFF}
 	if s.Transport == "ws" {
 		oo.Cid = s.Tun.Cid
 	}
